@@ -1,5 +1,6 @@
 import Vet.Props.C08
 import Vet.Props.C08Policies
+import Vet.Props.C08Meta
 #print axioms Vet.C08_registry_always
 #print axioms Vet.C08_unpublished_choice
 #print axioms Vet.C08_exact_iff
@@ -15,3 +16,8 @@ import Vet.Props.C08Policies
 #print axioms Vet.Pol.checkImpl_nil_iff
 #print axioms Vet.Pol.checkImpl_spurious_needsVersion
 #print axioms Vet.Pol.crate_policies_example
+#print axioms Vet.Reg.C08_considerSame_iff
+#print axioms Vet.Reg.C08_same_description_matches
+#print axioms Vet.Reg.C08_same_repository_matches
+#print axioms Vet.Reg.C08_absent_fields_never_match
+#print axioms Vet.Reg.C08_matching_copy_needs_choice
